@@ -34,7 +34,12 @@ pub const CAP: usize = 2;
 pub const BURST: usize = 3;
 const CANARY: u8 = 0;
 const MAX_ROUNDS: usize = 64;
-const QUIET_ROUNDS: usize = 3;
+/// consecutive harvest rounds without any observable change that count as quiescence; the
+/// polling driver is synchronous to the harness thread (a cancel's entry is in its completion
+/// channel before `cancel` returns), io_uring may post a cancelled request's CQE one enter later
+fn quiet_rounds(d: DriverType) -> usize {
+    if d == DriverType::Poll { 2 } else { 3 }
+}
 
 // ---------------------------------------------------------------------------------------------
 // instrumented resources
@@ -52,10 +57,6 @@ impl Probe {
     fn released(&self) -> bool {
         !self.fd_live.get() && !self.buf_live.get()
     }
-}
-
-thread_local! {
-    static PH: RefCell<[u128; 7]> = const { RefCell::new([0; 7]) };
 }
 
 thread_local! {
@@ -376,6 +377,8 @@ pub struct Config {
 }
 
 pub struct ExecResult {
+    /// the scheduler disturbed the only real-time step (see `World::timeout`): repeat
+    pub disturbed: bool,
     pub vios: Vec<Vio>,
     pub outcome: String,
     pub transitions: u64,
@@ -412,6 +415,7 @@ struct World<'a> {
     reached: Vec<&'static str>,
     transitions: u64,
     history: Vec<String>,
+    disturbed: bool,
 }
 
 fn errclass(e: &io::Error) -> String {
@@ -597,7 +601,7 @@ impl<'a> World<'a> {
     fn settle(&mut self) {
         let mut quiet = 0;
         let mut rounds = 0;
-        while quiet < QUIET_ROUNDS {
+        while quiet < quiet_rounds(self.cfg.driver) {
             rounds += 1;
             if rounds > MAX_ROUNDS {
                 self.vio("settle:no-quiescence", None, format!("still changing after {MAX_ROUNDS} harvest rounds"));
@@ -666,6 +670,12 @@ impl<'a> World<'a> {
             self.ops[i].fut = Some(wrapped);
             self.ops[i].timeout_wrapped = true;
             self.poll_op(i);
+            if self.ops[i].result.as_deref() == Some("Elapsed") {
+                // the harness thread lost the CPU for more than the 1 ms deadline between creating
+                // the timeout and polling it for the first time: the timer fired before the
+                // explicit sleep step. Not an observation of compio - the execution is repeated.
+                self.disturbed = true;
+            }
             if self.ops[i].result.is_none() {
                 if self.cancelled(i) {
                     self.reached.push("cancel_again_timeout");
@@ -691,6 +701,8 @@ impl<'a> World<'a> {
                 if !self.ops[i].timeout_wrapped {
                     self.vio("honest:elapsed-without-timeout", Some(i), "Elapsed from an op that was never put under a timeout".into());
                 }
+                // the wrapper dropped the inner future: from here on this is the drop route
+                self.ops[i].dropped_unfinished = true;
                 self.reached.push("timeout_elapsed");
             }
             Fin::Out(OpOut::Data(res, snap)) => match res {
@@ -1064,11 +1076,9 @@ pub fn execute(sc: &Scenario, seq: &[Step], cfg: &Config) -> ExecResult {
             }
         })
         .collect();
-    let t_a = std::time::Instant::now();
     let rt = build_runtime(cfg.driver);
-    let t_b = std::time::Instant::now();
     let ntok = crate::model::ntok(sc);
-    let (mut vios, outcome, transitions, reached, history, fds) = rt.enter(|| {
+    let (mut vios, outcome, transitions, reached, history, fds, disturbed) = rt.enter(|| {
         let ops = sc
             .ops
             .iter()
@@ -1103,6 +1113,7 @@ pub fn execute(sc: &Scenario, seq: &[Step], cfg: &Config) -> ExecResult {
             reached: vec![],
             transitions: 0,
             history: vec![],
+            disturbed: false,
         };
         for s in seq {
             w.history.push(s.name());
@@ -1124,7 +1135,6 @@ pub fn execute(sc: &Scenario, seq: &[Step], cfg: &Config) -> ExecResult {
             }
         }
         // final verdict: settle, then a grace period during which nothing else may happen
-        let t_c = std::time::Instant::now();
         w.history.push("final-settle".into());
         w.settle();
         w.judge("final settle");
@@ -1133,9 +1143,7 @@ pub fn execute(sc: &Scenario, seq: &[Step], cfg: &Config) -> ExecResult {
         }
         w.settle();
         w.judge("after grace");
-        let t_d = std::time::Instant::now();
         w.epilogue();
-        let t_e = std::time::Instant::now();
         let outcome = w.outcome();
         // teardown: dropping what is left is the drop route for every remaining operation
         w.history.push("teardown-drop-all".into());
@@ -1149,13 +1157,9 @@ pub fn execute(sc: &Scenario, seq: &[Step], cfg: &Config) -> ExecResult {
         w.tokens.clear();
         w.conservation();
         let fds = std::mem::take(&mut w.fds);
-        PH.with(|p| { let mut p = p.borrow_mut(); p[1] += (t_c - t_b).as_micros(); p[2] += (t_d - t_c).as_micros(); p[3] += (t_e - t_d).as_micros(); p[4] += t_e.elapsed().as_micros(); });
-        (w.vios, outcome, w.transitions, w.reached, w.history, fds)
+        (w.vios, outcome, w.transitions, w.reached, w.history, fds, w.disturbed)
     });
-    let t_f = std::time::Instant::now();
     drop(rt);
-    PH.with(|p| { let mut p = p.borrow_mut(); p[0] += (t_b - t_a).as_micros(); p[5] += t_f.elapsed().as_micros(); p[6] += 1;
-        if p[6] % 200 == 0 && std::env::var("C05_PHASES").is_ok() { eprintln!("{} build {} steps {} final {} epilogue {} teardown {} droprt {}", driver_name(cfg.driver), p[0]/p[6], p[1]/p[6], p[2]/p[6], p[3]/p[6], p[4]/p[6], p[5]/p[6]); } });
     // after the runtime is gone: nobody may have written into a buffer after compio released it
     let q = QUARANTINE.with(|q| std::mem::take(&mut *q.borrow_mut()));
     for (block, snap) in q {
@@ -1173,7 +1177,7 @@ pub fn execute(sc: &Scenario, seq: &[Step], cfg: &Config) -> ExecResult {
         }
     }
     drop(fds);
-    ExecResult { vios, outcome, transitions, reached }
+    ExecResult { disturbed, vios, outcome, transitions, reached }
 }
 
 /// Is the token attached by `with_cancel` visible to the code it wraps?  Returns a description of
@@ -1208,22 +1212,4 @@ pub fn token_canary(driver: DriverType) -> Option<String> {
             driver_name(driver)
         ))
     }
-}
-
-pub fn bench_runtime(driver: DriverType) {
-    use std::time::Instant;
-    thread_local! { static ACC: Cell<(u128,u128,u128,u32)> = const { Cell::new((0,0,0,0)) }; }
-    let t0 = Instant::now();
-    let rt = build_runtime(driver);
-    let t1 = Instant::now();
-    rt.enter(|| {
-        rt.poll_with(Some(Duration::ZERO));
-    });
-    let t2 = Instant::now();
-    drop(rt);
-    let t3 = Instant::now();
-    let (a,b,c,n) = ACC.get();
-    let v = (a + (t1-t0).as_micros(), b + (t2-t1).as_micros(), c + (t3-t2).as_micros(), n+1);
-    ACC.set(v);
-    if v.3 % 100 == 0 { eprintln!("build {}us poll {}us drop {}us", v.0/v.3 as u128, v.1/v.3 as u128, v.2/v.3 as u128); }
 }
